@@ -335,7 +335,7 @@ func engineSearchInvCLI(ctx *Ctx) {
 			}
 			if n > L {
 				ctx.R.Violate(vlib.Violation{Property: "C01", Clause: "limit", Path: "cli/" + path,
-					Detail: fmt.Sprintf("wtf printed %d results, limit in force %d (requested %d)", n, L, limit),
+					Detail:  fmt.Sprintf("wtf printed %d results, limit in force %d (requested %d)", n, L, limit),
 					Witness: map[string]interface{}{"case": cs, "stdout": vlib.Trunc(res.Stdout, 3000)}})
 			}
 		}
